@@ -228,7 +228,11 @@ func (c *Ctx) Set(key string, v interface{}) {
 func (c *Ctx) Rule(r string) { c.mu.Lock(); c.res.Rule = r; c.mu.Unlock() }
 
 // Assume appends an assumption.
-func (c *Ctx) Assume(a string) { c.mu.Lock(); c.res.Assumptions = append(c.res.Assumptions, a); c.mu.Unlock() }
+func (c *Ctx) Assume(a string) {
+	c.mu.Lock()
+	c.res.Assumptions = append(c.res.Assumptions, a)
+	c.mu.Unlock()
+}
 
 // Exhaustive marks the run as having enumerated a finite space completely.
 func (c *Ctx) Exhaustive(b bool) { c.mu.Lock(); c.res.Exhaustive = b; c.mu.Unlock() }
